@@ -17,6 +17,8 @@ impl Typstyle {
         source: &Source,
         utf8_range: Range<usize>,
     ) -> Result<(Range<usize>, String), Error> {
+        #[cfg(typstyle_verif)]
+        crate::verif::point("range:entry");
         // Trim the give range to ensure no space aside.
         let range = utils::trim_range(source.text(), utf8_range);
 
@@ -38,6 +40,8 @@ impl Typstyle {
         } else {
             return Err(Error::SyntaxError);
         };
+        #[cfg(typstyle_verif)]
+        crate::verif::point("range:converted");
         // Infer indent from context.
         let indent = utils::count_spaces_after_last_newline(source.text(), range.start);
         let res = doc
